@@ -106,7 +106,7 @@ class LoopCtx:
 
 class Executor(ExprMixin, CallMixin):
     def __init__(self, module, registry: Registry, universe: Universe, *,
-                 max_paths=20000, feas_timeout_ms=2000, merge=False):
+                 max_paths=20000, feas_timeout_ms=2000, merge=False, abstract=False, inline_calls=True):
         self.module = module
         self.reg = registry
         self.uni = universe
@@ -116,6 +116,9 @@ class Executor(ExprMixin, CallMixin):
         self.max_paths = max_paths
         self.paths = 0
         self.merge = merge
+        self.abstract = abstract          # unsupported expressions -> havoc + EXC-ANY (sound over-approximation)
+        self.inline_calls = inline_calls  # False: repo functions without contract are EXC-ANY calls
+        self.abstracted: list[str] = []
         self.feas = z3.Solver()
         self.feas.set("timeout", feas_timeout_ms)
         self.feas_calls = 0
@@ -494,7 +497,12 @@ class Executor(ExprMixin, CallMixin):
                         return None
                     d[k] = mv
                 m.heap[r] = HeapObj(oa.kind, d, oa.cls, oa.fresh)
-        if a.ghost != b.ghost or len(a.yielded) != len(b.yielded):
+        try:
+            if a.ghost.keys() != b.ghost.keys() or any(a.ghost[k] is not b.ghost[k] and a.ghost[k] != b.ghost[k] for k in a.ghost):
+                return None
+        except Exception:  # noqa  (values that cannot be compared: do not merge)
+            return None
+        if len(a.yielded) != len(b.yielded):
             return None
         return m
 
@@ -968,5 +976,3 @@ class Executor(ExprMixin, CallMixin):
         h = self.reg.ext_models.get(("with", getattr(cm, "sort", None) or cm.kind))
         if h is not None:
             h(self, st, cm, "exit")
-        st.ghost.setdefault("with_exits", 0)
-        st.ghost["with_exits"] += 1
